@@ -94,7 +94,7 @@ class Harness:
         for k, v in base.items():
             cfg.set(k, v)
         self.cfg = cfg
-        self.log = glogging.Logger(cfg)
+        self.log = cfg.logger_class(cfg)            # the configured logger (statsd_host switches to the Statsd logger)
         self.capture = _Capture()
         logging.getLogger("gunicorn.access").addHandler(self.capture)
         self.server_name = server_name
@@ -151,7 +151,7 @@ class Harness:
             box["exc"] = "%s: %s" % (type(e).__name__, e)
 
     def connection(self, script, app, peer=("127.0.0.1", 50000), mode="halfclose", segments=None,
-                   timeout=4.0, partial_read=0, read_delay=0.0):
+                   timeout=4.0, partial_read=0, read_delay=0.0, segment_delay=0.0):
         """Run one client connection. script: bytes the client sends. Returns dict."""
         self.worker.wsgi = app
         self.worker.alive = True if getattr(self, "_keep_alive_flag", True) else self.worker.alive
@@ -175,6 +175,8 @@ class Harness:
                     client_err = "send:" + errno.errorcode.get(e.errno, str(e.errno))
                     break
                 pos += n
+                if segment_delay and pos < len(script):
+                    time.sleep(segment_delay)       # the rest arrives noticeably later
             if mode == "halfclose":
                 try:
                     csock.shutdown(socket.SHUT_WR)
